@@ -22,6 +22,8 @@ def check(run):
                                                       "modulemd_path_of_category_recorded", "rpm_list_extended",
                                                       "entry_appended_at_end_of_addressed_list", "every_other_entry_unchanged"))
     json_args_obligation(run, c, "bytes.json_args")
+    # the file layer: load(path) parses the file given to THIS call and hands that document to the reader
+    verify.verify(run, c.E, c.contracts["io:common.MetadataBase.load"], crosscheck=False)
     n = 150 if run.tier == "quick" else 3000
     for mod, cls in KINDS:
         roundtrip.roundtrip(run, c.mods, mod, n, "manifests built by 0-8 random valid add calls (several variants/arches, epochs != 0, dashed names, "
